@@ -18,7 +18,7 @@ import (
 
 // ConcOp is one call issued by a worker goroutine.
 type ConcOp struct {
-	K    string `json:"k"` // fund redist release read
+	K    string `json:"k"` // fund redist split release read
 	V2   bool   `json:"v2,omitempty"`
 	U    bool   `json:"u,omitempty"`
 	A    int    `json:"a,omitempty"` // amount selector
@@ -73,6 +73,8 @@ func genC07Conc(t *rapid.T) C07ConcCase {
 				op.A = rapid.IntRange(0, 5).Draw(t, "amount-sel")
 				op.F = rapid.IntRange(1, 999).Draw(t, "permille")
 				op.Keep = rapid.Bool().Draw(t, "keep")
+			case r < 8 && rapid.Bool().Draw(t, "split-instead"):
+				op.K = "split"
 			case r < 8:
 				op.K = "redist"
 				op.N = rapid.IntRange(1, 12).Draw(t, "outputs")
@@ -198,6 +200,29 @@ func runC07Conc(c C07ConcCase, cs *kit.CaseStats) error {
 		return a
 	}
 
+	// SplitUTXO(n, minAmount) such that, in the prepared state, exactly one more
+	// output of at least a quarter of the largest one is wanted: the largest
+	// output is split in two
+	splitMin := oneH
+	splitN := 2
+	if len(sorted) > 0 {
+		splitMin = sorted[0].SiacoinOutput.Value.Div64(4)
+		if splitMin.IsZero() {
+			splitMin = oneH
+		}
+		above := 0
+		for _, u := range base.S {
+			if u.SiacoinOutput.Value.Cmp(splitMin) >= 0 {
+				above++
+			}
+		}
+		for _, u := range base.Efree {
+			if u.SiacoinOutput.Value.Cmp(splitMin) >= 0 {
+				above++
+			}
+		}
+		splitN = max(2, above+1)
+	}
 	var clock atomic.Int64
 	var mu sync.Mutex
 	var all []*concReq
@@ -295,6 +320,21 @@ func runC07Conc(c C07ConcCase, cs *kit.CaseStats) error {
 						r.relStart = clock.Add(1)
 						r.release(wd.w)
 					}
+				case "split":
+					r := &concReq{worker: wi, kind: "split", relStart: math.MaxInt64}
+					r.fundStart, r.wall0 = clock.Add(1), time.Now()
+					txn, err := wd.w.SplitUTXO(splitN, splitMin)
+					r.fundEnd, r.wall1 = clock.Add(1), time.Now()
+					if err != nil || len(txn.SiacoinInputs) == 0 {
+						continue // out of its domain for this state, nothing to do, or refused by the pool
+					}
+					r.v2 = []types.V2Transaction{txn}
+					for _, in := range txn.SiacoinInputs {
+						r.ids = append(r.ids, in.Parent.ID)
+					}
+					mu.Lock()
+					all = append(all, r)
+					mu.Unlock()
 				case "release":
 					if len(mine) > 0 {
 						r := mine[0]
@@ -362,7 +402,7 @@ func runC07Conc(c C07ConcCase, cs *kit.CaseStats) error {
 		return fmt.Errorf("INFRA: the wallet store moved during the concurrent phase")
 	}
 	v := end
-	if c.MinerBlocks > 0 {
+	{
 		v.snap.P = map[scID]bool{}
 		for id := range end.snap.P {
 			if base.snap.P[id] {
@@ -375,6 +415,16 @@ func runC07Conc(c C07ConcCase, cs *kit.CaseStats) error {
 		}
 		for id, e := range end.snap.E {
 			v.snap.E[id] = e
+		}
+		// outputs of split transactions pooled (and possibly confirmed again by
+		// the miner) in the meantime were unconfirmed outputs at some point
+		for _, r := range all {
+			if r.kind == "split" {
+				for i := range r.v2[0].SiacoinOutputs {
+					e := r.v2[0].EphemeralSiacoinOutput(i)
+					v.snap.E[e.ID] = e
+				}
+			}
 		}
 	}
 	for _, r := range all {
@@ -404,6 +454,36 @@ func runC07Conc(c C07ConcCase, cs *kit.CaseStats) error {
 			if !sum.Equals(r.amount.Add(change)) {
 				return fmt.Errorf("%s: Σ inputs %v != amount %v + change %v", where, sum, r.amount, change)
 			}
+		case "split":
+			// the call pooled the transaction itself: its own input is spent in
+			// the pool by now, by this very transaction
+			if _, ok := wd.cm.V2PoolTransaction(r.v2[0].ID()); !ok && c.MinerBlocks == 0 {
+				return fmt.Errorf("%s: the returned split transaction is not in the pool", where)
+			}
+			vv := v
+			vv.snap.P = map[scID]bool{}
+			for id := range v.snap.P {
+				if id != r.ids[0] {
+					vv.snap.P[id] = true
+				}
+			}
+			sum, _, err := wd.checkSelected(vv, r.ids, true, t0, t1, map[scID]bool{})
+			if err != nil {
+				return fmt.Errorf("%s: %w", where, err)
+			}
+			var outSum types.Currency
+			for _, o := range r.v2[0].SiacoinOutputs {
+				if o.Address != wd.waddr {
+					return fmt.Errorf("%s: output pays %v", where, o.Address)
+				}
+				outSum = outSum.Add(o.Value)
+			}
+			if !sum.Equals(outSum.Add(r.v2[0].MinerFee)) {
+				return fmt.Errorf("%s: input %v != Σ outputs %v + fee %v", where, sum, outSum, r.v2[0].MinerFee)
+			}
+			cs.Class("split=ok")
+			// SplitUTXO reserves its input like a funding call does
+			wd.reserve(r.ids, r.wall0, r.wall1, -1)
 		default:
 			seen := map[scID]bool{}
 			for ti, txn := range r.v2 {
@@ -441,6 +521,14 @@ func runC07Conc(c C07ConcCase, cs *kit.CaseStats) error {
 				}
 				a, b := rs[i], rs[j]
 				shared = true
+				// With 3 h reservations two results may share an output only if one
+				// of them was released before the other was selected. If neither
+				// release had begun when the other's call returned, whichever call
+				// selected second did so while the first result was held (selection
+				// and reservation / pooling are one atomic step of the wallet).
+				if !cfg.short() && i < j && a.relStart > b.fundEnd && b.relStart > a.fundEnd {
+					return fmt.Errorf("output %v is an input of worker %d's %s result (call [%d,%d], released at %d) and of worker %d's %s result (call [%d,%d], released at %d): neither was released before the other was selected", id, a.worker, a.kind, a.fundStart, a.fundEnd, a.relStart, b.worker, b.kind, b.fundStart, b.fundEnd, b.relStart)
+				}
 				// a was certainly outstanding during the whole of b's call
 				if a.fundEnd < b.fundStart && b.fundEnd < a.relStart && b.wall1.Before(a.wall0.Add(wd.dur)) {
 					return fmt.Errorf("output %v was selected by worker %d (%s, call [%d,%d]) while worker %d's %s request (funded at %d, released at %d) held it", id, b.worker, b.kind, b.fundStart, b.fundEnd, a.worker, a.kind, a.fundEnd, a.relStart)
@@ -497,8 +585,53 @@ func runC07Conc(c C07ConcCase, cs *kit.CaseStats) error {
 	if !wd.lagging() && !bal.Spendable.Equals(soSum) {
 		return fmt.Errorf("after the workers finished Balance().Spendable = %v, Σ SpendableOutputs = %v", bal.Spendable, soSum)
 	}
+	// every kept, signed result must be accepted by the pool: nothing it could
+	// conflict with exists (kept results are pairwise disjoint, released ones
+	// were never submitted). Decidable when the chain did not move.
+	if c.MinerBlocks == 0 && !cfg.short() {
+		for _, r := range all {
+			if r.relStart != math.MaxInt64 || r.kind == "split" {
+				continue
+			}
+			unconfirmed := false
+			for _, id := range r.ids {
+				if _, ok := end.snap.U[id]; !ok {
+					unconfirmed = true
+				}
+			}
+			if unconfirmed {
+				continue
+			}
+			var err error
+			switch {
+			case r.kind == "v1" && wd.v1Allowed():
+				ts := make([]types.Hash256, len(r.ids))
+				for i, id := range r.ids {
+					ts[i] = types.Hash256(id)
+				}
+				wd.w.SignTransaction(&r.v1, ts, types.CoveredFields{WholeTransaction: true})
+				_, err = wd.cm.AddPoolTransactions([]types.Transaction{r.v1})
+			case r.kind != "v1" && wd.v2Allowed():
+				for i := range r.v2 {
+					idx := make([]int, len(r.v2[i].SiacoinInputs))
+					for k := range idx {
+						idx[k] = k
+					}
+					wd.w.SignV2Inputs(&r.v2[i], idx)
+				}
+				_, err = wd.cm.AddV2PoolTransactions(end.snap.tip, r.v2)
+			default:
+				continue
+			}
+			if err != nil {
+				return fmt.Errorf("worker %d's kept %s result (amount %v) was rejected by the pool: %v", r.worker, r.kind, r.amount, err)
+			}
+			cs.Class("kept-result-accepted-by-the-pool")
+			r.relStart = math.MaxInt64 - 2 // submitted: not to be released
+		}
+	}
 	for _, r := range all {
-		if r.relStart == math.MaxInt64 {
+		if r.relStart == math.MaxInt64 && r.kind != "split" {
 			r.release(wd.w)
 		}
 	}
@@ -509,7 +642,11 @@ func runC07Conc(c C07ConcCase, cs *kit.CaseStats) error {
 	if err != nil {
 		return err
 	}
-	if d := diffSets(so, end.S, end.snap, wd, t0, time.Now()); d != "" {
+	pooled := false
+	for _, r := range all {
+		pooled = pooled || r.relStart == math.MaxInt64-2 || r.kind == "split"
+	}
+	if d := diffSets(so, end.S, end.snap, wd, t0, time.Now()); d != "" && !pooled {
 		return fmt.Errorf("after releasing every request SpendableOutputs is not back to the prepared state: %s", d)
 	}
 	if wd.lagging() {
@@ -529,7 +666,7 @@ func runC07Conc(c C07ConcCase, cs *kit.CaseStats) error {
 
 var c07ConcProp = kit.Prop[C07ConcCase]{
 	ID:   "C07",
-	Rule: "concurrent family: a prepared wallet (mined and paid outputs, optionally one pool-spent output and one unconfirmed payment) and 2..8 goroutines issuing FundTransaction / FundV2Transaction / Redistribute / ReleaseInputs / Balance / SpendableOutputs at once (3 h reservations, chain and pool frozen). Per request the input oracle and conservation; two requests sharing an output must not have been outstanding at the same time (logical clock stamped around every call; violation only when one request was certainly held during the whole of the other's call); at quiescence SpendableOutputs = prepared spendable set minus kept inputs = Balance().Spendable, and after releasing everything the full agreement audit. Non-trivial = ≥ 3 workers and ≥ 4 successful requests.",
+	Rule: "concurrent family: a prepared wallet (mined and paid outputs, optionally one pool-spent output and one unconfirmed payment) and 2..8 goroutines issuing FundTransaction / FundV2Transaction / Redistribute / SplitUTXO / ReleaseInputs / Balance / SpendableOutputs at once (3 h or 100 ms reservations; optionally a miner goroutine adds blocks). Per request the input oracle and conservation; two results sharing an output: with 3 h reservations one must have been released before the other was selected (logical clock stamped around every call: violation when neither release had begun before the other call returned); kept signed results must be accepted by the pool when the chain did not move; at quiescence SpendableOutputs = prepared spendable set minus kept inputs = Balance().Spendable, and after releasing everything the full agreement audit. Non-trivial = ≥ 3 workers and ≥ 4 successful requests.",
 	Assumptions: []string{
 		"goroutine interleavings are whatever the Go runtime produces; the sequential machine is the model-based oracle, this family stresses the single mutex (with -race in the thorough tier)",
 	},
